@@ -42,4 +42,13 @@ MUTANTS = [
     {"pid": "C31", "name": "patron-waited-never-cleared", "edits": [(HC, "                        self.responses.append(response)\n                        self.waited = False", "                        self.responses.append(response)")]},
     {"pid": "C31", "name": "responder-reset-chunkable-none", "edits": [(HS, "                        responder.reset(environ=environ, chunkable=chunkable)", "                        responder.reset(environ=environ)")]},
     {"pid": "C29", "name": "requestant-body-eats-next-byte", "edits": [(HS, "            self.body = self.msg[:self.length]\n            del self.msg[:self.length]", "            self.body = self.msg[:self.length]\n            del self.msg[:self.length + (1 if self.length else 0)]")]},
+    # C28
+    {"pid": "C28", "name": "incomer-refresh-only-on-rx", "edits": [(SV, "                self.wlog.writeTx(self.ca, data[:result])\n\n            if self.refreshable:\n                self.refresh()\n\n        return result\n\n    def tx(self, data):", "                self.wlog.writeTx(self.ca, data[:result])\n\n        return result\n\n    def tx(self, data):")]},
+    {"pid": "C28", "name": "persisted-timeout-not-disabled", "edits": [(HS, "            self.incomer.timeout =  0.0  # never timesout", "            pass")]},
+    {"pid": "C28", "name": "incomertls-no-refresh-on-send", "edits": [(SV, "            if self.refreshable:\n                self.refresh()\n\n        return result\n\n\nclass Acceptor", "        return result\n\n\nclass Acceptor")]},
+    {"pid": "C28", "name": "neg-control-expired-ge-vs-gt", "negative": True, "edits": [(HS, "class Valet(object):", "class Valet(object):  # control")]},
+    # C32
+    {"pid": "C32", "name": "valet-lets-parse-errors-escape", "edits": [(HS, "                except httping.HTTPException as ex:  # this may be superfluous", "                except KeyError as ex:  # this may be superfluous"), (HT, "        except HTTPException as ex:\n            self.errored = True\n            self.error = str(ex)\n\n        self.ended = True\n        self.started = False", "        except KeyError as ex:\n            self.errored = True\n            self.error = str(ex)\n\n        self.ended = True\n        self.started = False")]},
+    {"pid": "C32", "name": "chunk-end-valueerror", "edits": [(HT, '            raise HTTPException("Chunk end error. Expected empty got "', '            raise ValueError("Chunk end error. Expected empty got "')]},
+    {"pid": "C32", "name": "errored-request-served-anyway-and-kept", "edits": [(HS, "                    if requestant.errored:  # parse may swallow error but set .errored and .error\n                        sys.stderr.write(requestant.error)\n                        self.closeConnection(ca)\n                        continue", "                    if requestant.errored:  # parse may swallow error but set .errored and .error\n                        for xca in list(self.reqs.keys()):\n                            self.closeConnection(xca)\n                        continue")]},
 ]
